@@ -372,6 +372,15 @@ fn run_io(v: &[u64]) {
                 let past = std::panic::catch_unwind(std::panic::AssertUnwindSafe(|| it.get(f.len())));
                 vassert!(past.is_err(), "VF:intoowned.cip.accessors.get_past_end_returned");
             }
+            // ... also in a second life after clear (the slice region restarts at position 0)
+            crate::section("VF:intoowned.cip.after_clear");
+            u.clear();
+            let ks2: Vec<usize> = fed.iter().rev().map(|f| u.push(*f)).collect();
+            vassert!(ks2 == vec![0, 1, 2, 3], "VF:intoowned.cip.after_clear.index");
+            for (k, f) in ks2.as_slice().iter().zip(fed.iter().rev()) {
+                let it = u.index(*k);
+                vassert!(it.len() == f.len() && it.iter().eq(f.iter().copied()), "VF:intoowned.cip.after_clear.read");
+            }
             crate::section("VF:intoowned.cip");
             vassert!(t.index(k0).iter().eq([1u8, 2, 3]) && t.index(k1).iter().eq(x.iter().copied()) && t.index(k2).iter().eq(tail.iter().copied()) && t.index(k3).iter().eq(x.iter().copied()), "VF:intoowned.cip.read");
         }
@@ -490,7 +499,7 @@ pub fn harnesses() -> Vec<H> {
             bound: "IndexOptimized, IndexList<Vec<u32>,Vec<u64>>, Vec<usize>: all sequences of length 0..4 over the 12-value transition alphabet {0,1,2,3,4,5,6,8,u32::MAX,u32::MAX+1,2^63,usize::MAX} by push, one extend, two-three extend batches, or a push followed by extends; index/len/iter/clone/reserve/clear/with_capacity; heap bytes equal the documented cost rule; a fully strided sequence allocates nothing, also after reserve", kani: false },
         H { name: "dense_indices_free", props: &["C19"], nargs: 3, pre: pre_dense, doms: doms_dense, run: run_dense, panic_ok: false,
             bound: "FlatStack<ConsecutiveIndexPairs<StringRegion>, IndexOptimized> and FlatStack<ColumnsRegion<MirrorRegion<u8>>, IndexOptimized> with 0..40 items (optionally after an earlier life of empty or mixed items and a clear) by copy, a reserve in between and a second batch by extend (first composition): own index container reports 0 used and 0 allocated bytes", kani: false },
-        H { name: "into_owned_laws", props: &["C14", "C20", "C12", "C13"], nargs: 4, pre: pre_io, doms: doms_io, run: run_io, panic_ok: false,
+        H { name: "into_owned_laws", props: &["C14", "C20", "C12", "C13", "C08"], nargs: 4, pre: pre_io, doms: doms_io, run: run_io, panic_ok: false,
             bound: "read items of SliceRegion<MirrorRegion<u8>>, ColumnsRegion<MirrorRegion<u8>>, Option<&[u8]>, Result<&[u8],&str>, SliceRegion<SliceRegion<..>>: 4 values x 5 prior clone_onto targets (empty/shorter/longer/equal/other variant) x region-backed and owned-borrowed; region-to-region push (indices compared with the canonical form on a twin), also into ConsecutiveIndexPairs<SliceRegion<..>> followed by further items; owned-borrowed read item of SliceRegion<OptionRegion<StringRegion>> versus &Vec (index, reads, used bytes)", kani: false },
         H { name: "read_item_ordering", props: &["C15"], nargs: 11, pre: pre_cmp, doms: doms_cmp, run: run_cmp, panic_ok: false,
             bound: "SliceRegion<MirrorRegion<u8>>: triples of u8 vectors of length 0..2 (native: bytes over {0,1,255}), each side region-backed from two different regions or owned-borrowed: ==, !=, <, <=, >, >=, partial_cmp, cmp, max, min equal those of the Vecs; reflexive, antisymmetric, transitive", kani: false },
